@@ -164,16 +164,28 @@ def world_random(ctx, prop, blocks, length, seed_off=0):
     return st
 
 
-def world_threads(ctx, prop, blocks, rounds, ops, seed_off=0, defer=None, maxthreads=8):
+def world_threads(ctx, prop, blocks, rounds, ops, seed_off=0, defer=None, maxthreads=8, storms=0):
     out = ctx.fresh("wthr", "ndjson")
     st = run_bin(ctx, "world", ["threads", "--out", out, "--blocks", blocks, "--rounds", rounds, "--ops", ops,
-                                "--seed", ctx.seed * 1000 + 500 + seed_off, "--ntypes", 2, "--ndyns", 2, "--maxthreads", maxthreads],
+                                "--seed", ctx.seed * 1000 + 500 + seed_off, "--ntypes", 2, "--ndyns", 2, "--maxthreads", maxthreads,
+                                "--storms", storms, "--viol", 30000, "--keep", 30],
                  features=FEATURES)
     ctx.cov["impl_runs"].append({"kind": "impl->spec multi-thread call/return histories with canaries (linearizability)",
                                  "blocks": st["blocks"], "thread_calls": st["thread_calls"], "quiescent_probes": st["syncs"],
                                  "threads_per_block": st["threads_per_block"], "max_pending_calls": st["max_pending_calls"],
                                  "rounds_on_rayon_workers": st["rounds_on_rayon_workers"],
                                  "calls_overlapping_another": st["calls_overlapping_another"], "outcomes": st["outcomes"]})
+    if st.get("storm_blocks"):
+        sb = st["storm_blocks"]
+        ctx.cov["impl_runs"].append({
+            "kind": "impl->spec storm blocks: 1-2 violator threads issue thousands of refused (panicking) typed fetches of one "
+                    "resource while 3-4 bystander threads do only legal fetches of disjoint resources; whole refused attempts / "
+                    "whole acquire..release cycles beyond the first 30 per thread are omitted from the log unless their outcome "
+                    "is unexpected",
+            "blocks": len(sb), "real_operations": sum(x["operations"] for x in sb), "events_logged": sum(x["events_logged"] for x in sb),
+            "unexpected_outcomes_seen_by_harness": sum(x["unexpected_outcomes"] for x in sb),
+            "on_rayon_workers": sum(1 for x in sb if x["rayon"]), "wall_s": round(sum(x["wall_s"] for x in sb), 2)})
+        ctx.cov["traces_validated_against_impl"] += len(sb)
     if st["samples"]:
         ctx.sample({"kind": "start of a multi-thread history (call before / ret after each real operation)",
                     "events": st["samples"][0][:8]})
@@ -213,13 +225,13 @@ def world_family(ctx, prop):
     if prop == "C08":
         world_cell_mc(ctx, threads=3, maxops=3 if q else 4)
         if q:
-            world_threads(ctx, prop, blocks=8, rounds=5, ops=24, defer=small, maxthreads=6)
+            world_threads(ctx, prop, blocks=8, rounds=5, ops=24, defer=small, maxthreads=6, storms=3)
         else:
             # the set of configurations kept by WorldTrace grows exponentially with the number of
             # simultaneously pending calls: many blocks with <= 4 threads, fewer and shorter ones with 8
-            world_threads(ctx, prop, blocks=30, rounds=8, ops=40, seed_off=0, maxthreads=4)
-            world_threads(ctx, prop, blocks=30, rounds=8, ops=40, seed_off=1, maxthreads=4)
-            world_threads(ctx, prop, blocks=12, rounds=6, ops=16, seed_off=2, maxthreads=8)
+            world_threads(ctx, prop, blocks=30, rounds=8, ops=40, seed_off=0, maxthreads=4, storms=8)
+            world_threads(ctx, prop, blocks=30, rounds=8, ops=40, seed_off=1, maxthreads=4, storms=8)
+            world_threads(ctx, prop, blocks=12, rounds=6, ops=16, seed_off=2, maxthreads=8, storms=8)
     if small:
         merged = ctx.fresh("wsmall", "ndjson")
         with open(merged, "w") as f:
